@@ -412,8 +412,15 @@ class Interp:
         if tag in ('forall', 'exists'):
             env2 = dict(env)
             bound = []
+            # canonical names (nesting depth, position), as in sem.Ctx._bind: identical structure => identical solver terms
+            depth = env.get('__depth__', 0)
+            env2['__depth__'] = depth + 1
+            seen = []
             for (v, ty) in f[1]:
-                k = c.fresh_const(v, self.sort_of_type(ty))
+                if v in seen:
+                    continue
+                k = z3.Const('b%d_%d$%s' % (depth, len(seen), {'general': 'g', '$int': 'i', 'symbol': 's'}[ty]), self.sort_of_type(ty))
+                seen.append(v)
                 env2[v] = k
                 bound.append(k)
             body = self.formula(f[2], env2)
